@@ -117,6 +117,9 @@ def callOf (call : Json) : Except String (Call × Option (ARow × Nat)) := do
     | "insert" => do pure (Call.insert row owner elems idx (← valOf (← call.getObjVal? "v")))
     | "delitem" => pure (Call.delItem row owner elems idx)
     | "setitem" => do pure (Call.setItem row owner elems idx (← valOf (← call.getObjVal? "v")))
+    | "setslice" => do
+      pure (Call.setSlice row owner elems (← call.getObjValAs? Int "lo") (← call.getObjValAs? Int "hi")
+        (← (← call.getObjValAs? (Array Json) "vs").toList.mapM valOf))
     | "set" => do pure (Call.set row owner (← (← call.getObjValAs? (Array Json) "vs").toList.mapM valOf))
     | "del" => pure (Call.del row owner)
     | "roleset" => do
